@@ -127,8 +127,10 @@ func (p *Program) scanStructure() {
 				if nm == "init$guard" {
 					continue
 				}
+				if strings.HasSuffix(p.Fset.Position(m.Pos()).Filename, "zz_contracts_verif.go") {
+					continue // state of the run-time oracles in the guarded files
+				}
 				p.Globals = append(p.Globals, n+"."+nm)
-				_ = m
 			}
 		}
 		for _, fn := range p.allFuncs(n) {
